@@ -50,7 +50,7 @@ Proof.
 Qed.
 
 Lemma g_token_with_refresh n now cfg c g : g_token (with_refresh n now cfg c g) = g_token g.
-Proof. Local Transparent with_refresh. unfold with_refresh. destruct (should_issue_refresh _ _ _); reflexivity. Qed.
+Proof. Local Transparent with_refresh. unfold with_refresh. destruct (should_issue_refresh _ _ _ _); reflexivity. Qed.
 Local Opaque with_refresh.
 
 Ltac back_leaf :=
